@@ -1672,14 +1672,17 @@ pub(crate) fn add_sequence_dyn_zip<W, R, T>(
             ),
             move |args, ns, _tca, rt| {
                 let mut seqs = vec![];
+                let mut any_empty = false;
                 for a in args {
+                    // every argument is evaluated: an error in a later one must not be
+                    // skipped because an earlier sequence happens to be empty
                     let a = xraise!(eval(a, ns, &rt)?);
-                    let seq = to_native!(a, XSequence<W, R, T>);
-                    if seq.is_empty() {
-                        return Ok(manage_native!(XSequence::<W, R, T>::Empty, rt));
-                    }
+                    any_empty |= to_native!(a, XSequence<W, R, T>).is_empty();
                     seqs.push(a);
                     rt.can_afford(&seqs)?
+                }
+                if any_empty {
+                    return Ok(manage_native!(XSequence::<W, R, T>::Empty, rt));
                 }
                 Ok(manage_native!(XSequence::<W, R, T>::Zip(seqs), rt))
             },
